@@ -211,6 +211,9 @@ func (x *Exec) canInline(fn *ssa.Function, f *frame) bool {
 		}
 		return n <= maxDepInlineInstrs
 	}
+	if pkg == "github.com/onosproject/onos-lib-go/pkg/errors" {
+		return n <= maxInlineInstrs // small, self-contained: analysed from its pinned source rather than assumed
+	}
 	for _, p := range inlineDepPkgs {
 		if strings.HasPrefix(pkg, p) {
 			return n <= maxDepInlineInstrs
